@@ -9,7 +9,7 @@ from filter_functions.pulse_sequence import (_concatenate_Hamiltonian,
                                              concatenate_without_filter_function)
 
 from .. import gens
-from ..common import arr2bits, bits2arr, driver
+from ..common import arr2bits, bits2arr, corr_script, driver
 from .c17 import rand_pulse, run
 from .pulsecodec import ham_s, mapping_s, mk, norm_concat, of_ps, opid, pulse_s
 
@@ -30,7 +30,18 @@ disabled_never_computed auto_iff auto_iff_of_flag auto_error_iff atomic_requires
 error_iff error_small no_other_errors'''.split()
 THEOREMS = ['FFVerif.C03a.' + t for t in THEOREMS_A] + ['FFVerif.C03c.' + t for t in THEOREMS_C] \
     + ['FFVerif.C03d.' + t for t in THEOREMS_D]
-LEAN_MODULES = ['FFVerif.Props.C03a', 'FFVerif.Props.C03c', 'FFVerif.Props.C03d']
+LEAN_MODULES = ['FFVerif.Props.C03a', 'FFVerif.Props.C03c', 'FFVerif.Props.C03d', 'FFVerif.Props.C04Tile']
+# module C04Tile: Hamiltonian, times, propagators and total (Liouville) propagator of the sequenced pulse =
+# ordered product of the inputs' (what concatenate stores), for any number of pulses
+THEOREMS = THEOREMS + [
+    'FFVerif.C04Tile.hamiltonian_append', 'FFVerif.C04Tile.hamiltonian_concat_segment', 'FFVerif.C04Tile.propagators_append',
+    'FFVerif.C04Tile.total_propagator_append', 'FFVerif.C04Tile.concatTotalPropagator_pair', 'FFVerif.C04Tile.propagators_concat',
+    'FFVerif.C04Tile.total_propagator_concat', 'FFVerif.C04Tile.concatTotalPropagator_eq_from_scratch', 'FFVerif.C04Tile.cumL_eq_liouville_prodTotal',
+    'FFVerif.C04Tile.concatL_eq_liouville_from_scratch', 'FFVerif.C04Tile.times_concat', 'FFVerif.C04Tile.tau_concat',
+    'FFVerif.C04Tile.isDiag_concat2', 'FFVerif.C04Tile.isDiag_concatSeq', 'FFVerif.C04Tile.concatSeq_Qtot',
+    'FFVerif.C04Tile.concatTotalPropagator_eq_concatSeq', 'FFVerif.C04Tile.concatSeq_tau', 'FFVerif.C04Tile.concat2_segments',
+    'FFVerif.C04Tile.concat_cm_eq_diag_from_scratch', 'FFVerif.TileAux.mdot_toMatrix', 'FFVerif.TileAux.concatTau_eq_sum',
+    'FFVerif.TileAux.propagators_block', 'FFVerif.TileAux.times_block']
 PINS = ['pinConcatenate', 'pinConcatenateWithoutFF', 'pinControlMatrixFromAtomic',
         'pinBasisArrayFinalize', 'pinHashArray', 'pinConcatenateHamiltonian']
 GEN_SITES = ['einsum:numeric_calculate_control_matrix_from_atomic_0',
@@ -76,6 +87,7 @@ def decision_correspondence(ctx):
 
 def correspondence(ctx):
     decision_correspondence(ctx)
+    corr_script(ctx, 'corr_c04tile', ['concatenate'])
     prng = random.Random(int(ctx.rng('corr').integers(0, 2**31)))
     N = 30 if ctx.tier == 'quick' else 500
     reqs, expect, kinds = [], [], []
@@ -556,6 +568,11 @@ def search(ctx, deep=False):
         sharing = str(rng.choice(['shared', 'partial', 'disjoint']))
         descs = make_list(rng, nP, sharing, d, incomplete=rng.random() < 0.12,
                           clash=rng.random() < 0.3)
+        if i % 4 == 3:
+            # the amplitudes of one pulse (mostly the first) in another admissible container:
+            # Python ints, a float32 array, plain lists — the other pulses keep float64 arrays
+            j = 0 if rng.random() < 0.6 else int(rng.integers(0, nP))
+            descs[j] = gens.set_coeff_form(descs[j], str(rng.choice(['int', 'int', 'f32', 'list'])))
         om = np.sort(rng.uniform(0.1, 6, 5))
         om2 = np.sort(rng.uniform(0.1, 6, 5 if rng.random() < 0.5 else 7))
         states = [str(rng.choice(CACHE_STATES)) for _ in range(nP)]
